@@ -1,0 +1,13 @@
+//go:build verif
+
+package keeper
+
+import sdk "github.com/cosmos/cosmos-sdk/types"
+
+// Verification hooks (build tag verif only): read-only access to, and reset of, the
+// process-level variable used by the staking hooks, so that a checker can observe
+// residue directly and emulate a process restart in-process.
+
+func VerifSharesBeforeModified() sdk.Dec { return sharesBeforeModified }
+
+func VerifResetProcessGlobals() { sharesBeforeModified = sdk.NewDec(0) }
